@@ -17,6 +17,7 @@ type State struct {
 	heap    map[string]*Term
 	famGen  map[string]int // heap family prefix -> generation (for lazily created keys)
 	pc      []*Term
+	pcDec   []bool // parallel to pc: true for branch decisions (discriminators at merges)
 	alloc   *Term // allocation watermark (mathint); refs > alloc are fresh
 	alloc0  *Term // watermark at function entry
 	dead    bool
@@ -29,7 +30,7 @@ func newState() *State {
 	a := mkVar("alloc0", sortMath)
 	defer func() {}()
 	st0 := &State{env: map[types.Object]Value{}, glob: map[string]Value{}, heap: map[string]*Term{}, famGen: map[string]int{}, alloc: a, alloc0: a, ghost: map[string]Value{}}
-	st0.pc = append(st0.pc, mkCmp("le", mkInt(sortMath, 0), a))
+	st0.assume(mkCmp("le", mkInt(sortMath, 0), a))
 	return st0
 }
 
@@ -57,6 +58,7 @@ func (s *State) clone() *State {
 		n.ghost[k] = v
 	}
 	n.pc = append([]*Term(nil), s.pc...)
+	n.pcDec = append([]bool(nil), s.pcDec...)
 	n.defers = make([][]deferred, len(s.defers))
 	for i, d := range s.defers {
 		n.defers[i] = append([]deferred(nil), d...)
@@ -64,18 +66,34 @@ func (s *State) clone() *State {
 	return n
 }
 
-func (s *State) assume(t *Term) {
+func (s *State) assume(t *Term) { s.addFact(t, false) }
+
+// decide records a branch decision: at a merge the decisions taken since the common ancestor discriminate the states.
+func (s *State) decide(t *Term) { s.addFact(t, true) }
+
+func (s *State) addFact(t *Term, dec bool) {
+	for len(s.pcDec) < len(s.pc) {
+		s.pcDec = append(s.pcDec, false)
+	}
 	if t.isTrue() {
+		if dec {
+			s.pc = append(s.pc, t)
+			s.pcDec = append(s.pcDec, true)
+		}
 		return
 	}
 	if t.isFalse() {
 		s.dead = true
 	}
 	if t.Op == "and" {
-		s.pc = append(s.pc, t.Args...)
+		for _, a := range t.Args {
+			s.pc = append(s.pc, a)
+			s.pcDec = append(s.pcDec, dec)
+		}
 		return
 	}
 	s.pc = append(s.pc, t)
+	s.pcDec = append(s.pcDec, dec)
 }
 
 // ---- heap ----
@@ -103,7 +121,76 @@ func (s *State) heapGet(key string, sort *Sort) *Term {
 	t := mkVar(name, sort)
 	s.heap[key] = t
 	heapSorts[key] = sort
+	registerHeapAxiom(t, g, s)
 	return t
+}
+
+// References stored in a heap snapshot were allocated before the snapshot was taken: for the initial heap
+// they are <= alloc0, for a havoced generation <= the allocation watermark at the time of the havoc.
+var heapAxioms = map[string]*Term{}
+var genBound = map[int]*Term{}
+
+func registerHeapAxiom(v *Term, g int, s *State) {
+	if _, ok := heapAxioms[v.Name]; ok {
+		return
+	}
+	bound := s.alloc0
+	if g > 0 {
+		if b, ok := genBound[g]; ok {
+			bound = b
+		} else {
+			return
+		}
+	}
+	// find the leaf sort
+	srt := v.Sort
+	var idx []*Term
+	cur := v
+	for srt.K == SArray {
+		i := freshVar("h", srt.Idx)
+		idx = append(idx, i)
+		cur = mkSelect(cur, i)
+		srt = srt.Elem
+	}
+	if srt != sortRef || len(idx) == 0 {
+		heapAxioms[v.Name] = tTrue
+		return
+	}
+	heapAxioms[v.Name] = mkQuant("forall", idx, mkAnd(mkCmp("le", mkInt(sortRef, 0), cur), mkCmp("le", cur, bound)), []*Term{cur})
+}
+
+// heapAxiomsFor returns the axioms of the heap variables that occur in the given terms.
+func heapAxiomsFor(ts []*Term) []*Term {
+	seen := map[*Term]bool{}
+	names := map[string]bool{}
+	var rec func(t *Term)
+	rec = func(t *Term) {
+		if seen[t] {
+			return
+		}
+		seen[t] = true
+		if t.Op == "var" && strings.HasPrefix(t.Name, "H|") {
+			names[t.Name] = true
+		}
+		for _, a := range t.Args {
+			rec(a)
+		}
+	}
+	for _, t := range ts {
+		rec(t)
+	}
+	var out []*Term
+	var ns []string
+	for n := range names {
+		ns = append(ns, n)
+	}
+	sort.Strings(ns)
+	for _, n := range ns {
+		if ax, ok := heapAxioms[n]; ok && !ax.isTrue() {
+			out = append(out, ax)
+		}
+	}
+	return out
 }
 
 var genCounter int
@@ -112,6 +199,7 @@ var genCounter int
 func (s *State) havocFamily(prefix string) {
 	genCounter++
 	s.famGen[prefix] = genCounter
+	genBound[genCounter] = s.alloc
 	for k := range s.heap {
 		if strings.HasPrefix(k, prefix) {
 			delete(s.heap, k)
@@ -528,11 +616,50 @@ func mergeStates(base int, states []*State) *State {
 		return live[0]
 	}
 	conds := make([]*Term, len(live))
-	for i, s := range live {
-		conds[i] = condOf(s.pc, base)
+	useDec := true
+	for _, s := range live {
+		for len(s.pcDec) < len(s.pc) {
+			s.pcDec = append(s.pcDec, false)
+		}
+		has := false
+		for k := base; k < len(s.pc); k++ {
+			if s.pcDec[k] {
+				has = true
+			}
+		}
+		if !has {
+			useDec = false
+		}
 	}
 	out := live[0].clone()
-	out.pc = append(append([]*Term(nil), live[0].pc[:base]...), mkOr(conds...))
+	out.pc = append([]*Term(nil), live[0].pc[:base]...)
+	out.pcDec = append([]bool(nil), live[0].pcDec[:base]...)
+	if useDec {
+		var facts []*Term
+		for i, s := range live {
+			var ds, fs []*Term
+			for k := base; k < len(s.pc); k++ {
+				if s.pcDec[k] {
+					ds = append(ds, s.pc[k])
+				} else {
+					fs = append(fs, s.pc[k])
+				}
+			}
+			conds[i] = mkAnd(ds...)
+			for _, f := range fs {
+				facts = append(facts, mkImplies(conds[i], f))
+			}
+		}
+		out.assume(mkOr(conds...))
+		for _, f := range facts {
+			out.assume(f)
+		}
+	} else {
+		for i, s := range live {
+			conds[i] = condOf(s.pc, base)
+		}
+		out.assume(mkOr(conds...))
+	}
 	// env
 	for obj := range live[0].env {
 		vals := make([]Value, 0, len(live))
